@@ -288,7 +288,7 @@ public:
 			}
 		}
 		else {
-			lexp += rexp;
+			lexp -= rexp;
 			_block.assign(lexp);
 		}
 		setsign(negative);
